@@ -20,7 +20,30 @@ Two modes, chosen by the environment (not by --tier):
   A result that depends on the poison was computed from memory outside the arrays.
 
 A Python exception is an allowed rejection in both modes.  A per-case watchdog (SIGALRM with
-default action) turns a hang into `skipped: timeout ...`; a hang is not a C20 violation.
+default action) turns a hang into `skipped: timeout ...`; a hang is not a C20 violation (the drivers
+avoid the argument ranges for which kernels are known to loop for ever: knn >= samples, no admissible
+rewiring/swap, resampling from a distribution without mass).
+
+Process layout: parent -> up to 8 children (`--cases-file`), each a supervisor that imports pyunicorn
+once and forks a worker for its share of the cases; a worker killed by a sanitizer report, a signal or
+the watchdog is replaced by a fresh fork that continues behind the fatal case, so each death costs
+milliseconds and is attributed to the case (and the public call, `@@C20 STEP` markers on stderr) it
+happened in.  In plain mode every case ends with flush_heap(), which pushes numpy's privately cached
+blocks through free() so that glibc reports a damaged malloc header inside the guilty case.
+
+Check names: `<Class.method>/asan` (sanitizer mode), `<Class.method>/crash`, `<Class.method>/foreign-memory`
+(plain mode).  Two case families have a label of their own because they fail on the tree at the time of
+writing (genuine C20 violations, reported, not papered over):
+  * `RainfallClimateNetwork.spearman_corr(mask.shape!=anomaly.shape)` - the public method hands a mask smaller
+    than `anomaly` to the raw-pointer kernel (heap-buffer-overflow READ in _spearman_corr);
+  * `Surrogates.test_mutual_information(n_bins=0)` - histogram arrays of extent 0 are indexed with n_bins-1 = -1
+    and 0 (heap-buffer-overflow READ+WRITE in _test_mutual_information_fast; plain build: glibc abort).
+
+Sensitivity (scratch copies, both modes): caught `i*m+t` in _spearman_corr; removed index guard in
+ResNetwork.vertex_current_flow_betweenness; `k <= n_samples` in the C histogram loop; removed surrogates
+shape check in test_pearson_correlation (plain mode: only by one case); `j<=N` in the ECFB loop;
+`p_mi = mi + i*n_time`; `surrogates + j*N`; hist2d allocated int32 but read as long*; spearman_rho allocated
+(tmax,tmax); `boundscheck: False` in setup.py (caught at >20 entry points).
 
 Exact recipe (verified with Debian clang 14.0.6; build ~25 s with -j4):
 
@@ -38,7 +61,8 @@ Exact recipe (verified with Debian clang 14.0.6; build ~25 s with -j4):
     rm -rf /tmp/c20
 
 Plain mode:  cd /verif && PYTHONPATH=/verif .venv/bin/python bounded/c20.py --tier quick --seed 0 --out /tmp/c20.json
-One case:    ... bounded/c20.py --tier quick --seed 0 --case '<case name>'      (prints the child's JSON line)
+One case:    ... bounded/c20.py --tier quick --seed 0 --case '<case name>[;<case name>...]'   (prints the worker's JSON lines)
+Some entries:... bounded/c20.py --tier quick --seed 0 --only Surrogates --out ...       (development aid)
 Replay:      ... bounded/c20.py --replay FILE   (FILE: JSON with a `witness` as emitted in a failure)
 
 Not driven: the MPI branch of (nsi_)newman_betweenness (mpi.available is False here; the serial
@@ -303,21 +327,12 @@ def child_case(case):
     return rec
 
 
-def child_main(cases):
-    try:
-        import pyunicorn  # noqa: F401
-    except BaseException as e:      # noqa: B902
-        sys.stderr.write("C20 harness: cannot import pyunicorn: %r\n" % (e,))
-        sys.exit(3)
-    real_out = os.fdopen(os.dup(1), "w")
-    devnull = open(os.devnull, "w")
-    os.dup2(devnull.fileno(), 1)
-    sys.stdout = devnull
-    import warnings
-    warnings.filterwarnings("ignore")
-    np.seterr(all="ignore")
-    signal.signal(signal.SIGALRM, signal.SIG_DFL)
-    for case in cases:
+def worker(cases, start, real_out, prog_fd):
+    """Runs cases[start:] in a forked process; progress goes to prog_fd, records to real_out."""
+    signal.signal(signal.SIGALRM, signal.SIG_DFL)       # default action: the watchdog kills this worker
+    for i in range(start, len(cases)):
+        case = cases[i]
+        os.write(prog_fd, b"B %d\n" % i)
         mark("BEGIN " + case["name"])
         signal.alarm(CASE_LIMIT_S)
         t0 = time.time()
@@ -334,6 +349,64 @@ def child_main(cases):
         mark("END " + case["name"])
         real_out.write(json.dumps(rec) + "\n")
         real_out.flush()
+        os.write(prog_fd, b"E %d\n" % i)
+
+
+def child_main(cases):
+    """Supervisor: imports pyunicorn once, then forks a worker that runs the cases; a worker killed by a
+    sanitizer report / signal / watchdog is replaced by a fresh fork that continues behind the fatal case."""
+    try:
+        import pyunicorn  # noqa: F401
+        from pyunicorn import core, climate, funcnet, timeseries  # noqa: F401
+    except BaseException as e:      # noqa: B902
+        sys.stderr.write("C20 harness: cannot import pyunicorn: %r\n" % (e,))
+        sys.exit(3)
+    real_out = os.fdopen(os.dup(1), "w")
+    devnull = open(os.devnull, "w")
+    os.dup2(devnull.fileno(), 1)
+    sys.stdout = devnull
+    import warnings
+    warnings.filterwarnings("ignore")
+    np.seterr(all="ignore")
+    start = 0
+    while start < len(cases):
+        r, w = os.pipe()
+        sys.stderr.flush()
+        pid = os.fork()
+        if pid == 0:
+            os.close(r)
+            code = 0
+            try:
+                worker(cases, start, real_out, w)
+            except SystemExit as e:
+                code = e.code if isinstance(e.code, int) else 1
+            except BaseException:       # noqa: B902
+                import traceback
+                traceback.print_exc()
+                code = 3
+            os._exit(code)
+        os.close(w)
+        prog = b""
+        while True:
+            chunk = os.read(r, 65536)
+            if not chunk:
+                break
+            prog += chunk
+        os.close(r)
+        _, status = os.waitpid(pid, 0)
+        rc = -os.WTERMSIG(status) if os.WIFSIGNALED(status) else os.WEXITSTATUS(status)
+        begun = [int(x[2:]) for x in prog.decode().split("\n") if x.startswith("B ")]
+        ended = {int(x[2:]) for x in prog.decode().split("\n") if x.startswith("E ")}
+        if rc == 0 and begun and begun[-1] == len(cases) - 1 and begun[-1] in ended:
+            break
+        cur = next((i for i in begun if i not in ended), None)
+        if cur is None:
+            sys.stderr.write("C20 harness: worker ended with rc=%s outside a case\n" % rc)
+            sys.exit(3 if rc in (0, 3) else 4)
+        real_out.write(json.dumps({"name": cases[cur]["name"], "entry": cases[cur]["entry"],
+                                   "worker_rc": rc}) + "\n")
+        real_out.flush()
+        start = cur + 1
     sys.exit(0)
 
 
@@ -419,9 +492,16 @@ def run_batch(cases):
         for c in pending:
             if c["name"] in done:
                 r = done[c["name"]]
-                text = segs.get(c["name"], {}).get("text", "")
-                if any(w in text for w in SAN_WORDS):      # recoverable report, child survived
-                    r["san_report"] = san_excerpt(text)
+                seg = segs.get(c["name"], {"text": "", "step": None})
+                if "worker_rc" in r:                        # the forked worker died in this case
+                    r["rc"], r["step"] = r["worker_rc"], seg["step"]
+                    if r["rc"] == -signal.SIGALRM:
+                        r["timeout"] = True
+                    else:
+                        r["died"] = (san_excerpt(seg["text"]) if seg["text"].strip()
+                                     else "worker ended with rc=%s" % r["rc"])
+                elif any(w in seg["text"] for w in SAN_WORDS):      # recoverable report, worker survived
+                    r["san_report"] = san_excerpt(seg["text"])
                 records.append(r)
         if rc == 0 and all(c["name"] in done for c in pending):
             break
@@ -449,15 +529,16 @@ def case_name(entry_name, params):
 def build_cases(tier, seed):
     cases, seen = [], set()
     for i, (name, (_, generator)) in enumerate(ENTRIES.items()):
-        rng = np.random.RandomState((seed * 1000003 + i * 7919 + 17) % (2 ** 32))
-        for params in generator(tier, rng):
-            params = jsonable(params)
-            params.setdefault("ds", int(rng.randint(0, 2 ** 31 - 1)))
-            nm = case_name(name, {k: v for k, v in params.items() if k != "ds"})
-            if nm in seen:
-                continue
-            seen.add(nm)
-            cases.append({"name": nm, "entry": name, "params": params})
+        for rep in range(5 if tier == "thorough" else 1):       # thorough: five draws of the random sizes
+            rng = np.random.RandomState((seed * 1000003 + i * 7919 + rep * 104729 + 17) % (2 ** 32))
+            for params in generator(tier, rng):
+                params = jsonable(params)
+                params.setdefault("ds", int(rng.randint(0, 2 ** 31 - 1)))
+                nm = case_name(name, {k: v for k, v in params.items() if k != "ds"})
+                if nm in seen:
+                    continue
+                seen.add(nm)
+                cases.append({"name": nm, "entry": name, "params": params})
     return cases
 
 
@@ -1395,7 +1476,8 @@ def _e_surr_test(p, mk, rng, ctx):
     o = mk(gen(rng, (p["N"], p["T"]), p["dt"], p.get("fl", "rand")))
     s = mk(gen(rng, (p["sN"], p["sT"]), p["dt"]))
     ctx.call("Surrogates.test_pearson_correlation", S.test_pearson_correlation, o, s)
-    ctx.call("Surrogates.test_mutual_information", S.test_mutual_information, o, s, n_bins=p["nb"])
+    ctx.call("Surrogates.test_mutual_information" + ("(n_bins=0)" if p["nb"] == 0 else ""),
+             S.test_mutual_information, o, s, n_bins=p["nb"])
 
 
 def g_surr(tier, rng):
